@@ -21,7 +21,14 @@ TV  (Trace_DvbDemux, real constants): streams produced by the REAL multiplexer (
                     Families: intact / damage at every offset / junk (round 1); continuity (counters that wrap: every value
                     0..15 on a packet sent twice and on a lost packet, single header fields), capacity (frames of 63 .. 78
                     data units), fields (PES header fields, data unit lengths, stuffing, truncated end, junk with forged
-                    sync bytes / start codes at every alignment) (round 2)."""
+                    sync bytes / start codes at every alignment) (round 2); residues (PES_packet_length + 6 = k x 184 + r for
+                    every residue r, claimed end inside / beyond the packet, PES and TS, once per route with > 64 KiB of intact
+                    packets behind it), undefined-first (frames whose first data unit is an undefined line of the first / second
+                    field as first, second, later frame behind predecessors ending in either field) (round 3).
+                    _und_q/_und_t  the same two families at the scaled layout: all partitions + Recovery; ASSUME FreshFrameTakes
+                    (a frame that was just begun takes its first unit: the completion loop ends).
+Hangs: the driver's watchdog (10 s CPU time / 20 s wall per command) ends the process; the run is repeated alone and reported
+                    as hang:vbi_dvb_demux:<pes|ts> only when it hangs again."""
 import json, os, random, re, hashlib
 from vlib import tlc, build, core, dvb
 
@@ -46,13 +53,19 @@ MANIFEST = dict(
          "other data_identifier) must deliver what the stream delivers, and after every damage (overwritten, lost, duplicated bytes at every "
          "position of a PES / TS packet, swapped / lost TS packets, single TS and PES header fields, data unit lengths and ids, oversized "
          "frames of 65 .. 78 data units in one or three PES packets, junk with forged sync bytes and start codes at every alignment, truncated "
-         "stream end) the frames of the intact tail must be delivered as sent.",
+         "stream end, a PES_packet_length that leaves every remainder 0..183 modulo 184 with the claimed end inside or beyond the packet, "
+         "followed once per route by more than 64 KiB of intact packets) the frames of the intact tail must be delivered as sent. Frames whose "
+         "first data unit has an undefined line number (first / second field) are sent as first, second and later frame behind predecessors "
+         "ending in either field: where the field goes back or changes at the start of a packet every frame must be delivered as sent "
+         "(same field: no recognisable boundary, only the frames behind are asserted); the specification states that a frame just begun "
+         "takes its first unit (no endless completion of empty frames), a call that does not return within the CPU-time watchdog twice is a hang.",
     note="Bounded: exhaustive partitions only for the scaled layout (33-byte PES packets, 15-byte TS packets, streams of 70-115 bytes); at real "
          "size partitions are every single cut, sampled/all double cuts of a prefix, byte-by-byte and seeded random ones. Raw (monochrome sample) "
          "data units are skipped by the receiver as built (no raw buffer) and are only passed through. Recovery is not asserted where the damage "
          "enlarges PES_packet_length (in a PES stream; in a TS the next payload_unit_start ends the packet) or removes >= 184 bytes (a receiver has to "
          "trust that field), nor behind junk that forges a start code / sync byte. A packet sent three times is not asserted to be transparent. The policy for the frame in progress at the "
-         "damage (kept / dropped) is left open; the TS receiver is reachable only through the internal _vbi_dvb_ts_demux_new().",
+         "damage (kept / dropped) is left open; an undefined line of the second field at the start of a packet behind first field lines is taken for a new "
+         "frame (clause FieldUpStartsFrame of DvbDemux, what the demultiplexer documents; EN 301 775 would also allow the same frame to go on); the TS receiver is reachable only through the internal _vbi_dvb_ts_demux_new().",
 )
 
 KINDS = ("over", "drop", "dup")
@@ -509,6 +522,173 @@ def family_fields(ctx, drv, quick, rnd, add_stream, streams, runs):
                         for plan in plans_variant(rnd, len(b), quick, p_cor=0.15):
                             runs.append(Run(sid, plan, rec=not forged))
 
+# ---------------------------------------------------------------- round 3: every residue of the packet length, frames that begin with an undefined line
+def family_residues(ctx, drv, quick, rnd, add_stream, streams, runs):
+    """PES_packet_length of packet D (really 4 x 184 bytes) rewritten so that PES_packet_length + 6 = k x 184 + r for EVERY
+    residue r in 0 .. 183: k = 1, 2, 3 (the field claims less than the packet has: in a TS the claimed end lies r bytes inside
+    transport packet k, which continues without payload_unit_start) and k = 4 (more).  Non-conformant (EN 300 472 4.2: N x 184 - 6)
+    but it passes every header test.  Behind the damage intact packets; once per route a tail of > 64 KiB (a receiver that
+    loses count of the bytes of the damaged packet must not write them anywhere: pes_buffer holds 64 KiB)"""
+    D, A = 2, 4
+    counts = [2, 3, 12, 3, 2, 4, 1, 2]
+    small, large = list(range(1, 6)), list(range(179, 184))
+    covered = set()
+
+    def make():
+        frames = simple_frames(rnd, counts)
+        pes = dvb.pes_of_mux(dvb.real_stream(drv, dict(ts=False, pid=0, did=0x99, min=184, max=1472), frames), False)
+        return (frames, pes) if (len(pes[D]) == A * 184 and dvb.sync_clean(flat(dvb.ts_packetize(pes, PID2, 0)[0]))) else None
+    frames, pes = sync_clean_try(make)
+    sent = [dvb.sent_frame(fr, pts) for fr, pts in frames]
+    if quick:
+        others = [r for r in range(184) if r not in small + large + [0, 6, 7]]
+        rot = [others[(ctx.seed * 13 + 23 * i) % len(others)] for i in range(6)]
+        residues = sorted(set(small + large + [0, 6, 7] + rot))
+    else:
+        residues = list(range(184))
+    for ts in (False, True):
+        cfg = dict(ts=ts, pid=PID2 if ts else 0)
+        cc0 = rnd.randrange(16)
+        enc = (lambda pp: flat(dvb.ts_packetize(pp, PID2, cc0)[0])) if ts else flat
+        first = 1 if (ts and len(pes[0]) == 184) else 0
+        b0 = enc(pes)
+        base = add_stream(b0, cfg, sent[first:-1], "residues: intact %s stream" % ("TS" if ts else "PES"))
+        for plan in plans_variant(rnd, len(b0), quick, p_cor=1.0):
+            runs.append(Run(base, plan, rec=True))
+        for r in residues:
+            if quick:
+                k1 = 1 + (ctx.seed + r) % 3
+                inside, beyond = [k1] + [k for k in (1, 2, 3) if k != k1], ([4] if r % 3 == ctx.seed % 3 else [])
+            else:
+                inside, beyond = [1, 2, 3], [4]
+            done = 0
+            for k in inside + beyond:
+                T = k * 184 + r
+                if (k == A and r == 0) or (quick and k < A and done):        # quick: one claimed end inside the packet (spares: only
+                    continue                                                 # when a length byte forges a sync byte)
+                q = list(pes[D])
+                q[4:6] = [(T - 6) >> 8, (T - 6) & 255]
+                b = enc(pes[:D] + [q] + pes[D + 1:])
+                if ts and not dvb.sync_clean(b):
+                    continue
+                sid = add_stream(b, cfg, sent[D + 2:-1], "residues: PES_packet_length + 6 = %d x 184 + %d instead of %d x 184 in packet %d of a %s stream" % (
+                    k, r, A, D, "TS" if ts else "PES"))
+                for plan in plans_variant(rnd, len(b), quick):
+                    runs.append(Run(sid, plan, rec=(ts or T <= A * 184)))
+                covered.add((ts, r))
+                if k < A:
+                    covered.add((ts, r, "inside"))
+                    done += 1
+        # the long tail: > 64 KiB of intact single-packet frames behind the damage
+        for r in (rnd.sample(small, 1) + (rnd.sample(large, 1) if ts else [])) if quick else (small + large + [0, 6, 7, 92]):
+            def make_long():
+                extra, xp, t0 = [], [], rnd.randrange(1 << 20)
+                while len(extra) < 520:          # single-packet frames (line 7), no byte of a packet imitates a sync byte
+                    t0 += 3600
+                    fr, pts = [ttx(rnd, 7)], (len(extra) % 8, (t0 + rnd.randrange(3600)) % (1 << 30))
+                    pk = dvb.enc_pes([dvb.unit_of(l) for l in fr], pts, 0x99)
+                    if 0x47 not in pk:
+                        extra.append((fr, pts)); xp.append(pk)
+                k = rnd.choice([1, 2, 3])
+                q = list(pes[D])
+                T = k * 184 + r
+                q[4:6] = [(T - 6) >> 8, (T - 6) & 255]
+                b = enc(pes[:D] + [q] + pes[D + 1:] + xp)
+                return (extra, b, k) if (not ts or dvb.sync_clean(b)) else None
+            extra, b, k = sync_clean_try(make_long)
+            must = (sent + [dvb.sent_frame(fr, pts) for fr, pts in extra])[D + 2:-1]
+            sid = add_stream(b, cfg, must, "residues: PES_packet_length + 6 = %d x 184 + %d in packet %d of a %s stream, %d bytes of intact packets behind it" % (
+                k, r, D, "TS" if ts else "PES", len(b) - len(b0)))
+            n = len(b)
+            P = [("cb", 64, [4096] * (n // 4096) + ([n % 4096] if n % 4096 else []), 0)]
+            if ts or not quick:
+                P.append(("cb", 64, dvb.rnd_partition(rnd, n, "packet"), 0))
+            if not quick:
+                P.append(("cor", 64, [1880] * (n // 1880) + ([n % 1880] if n % 1880 else []), 0))
+            for plan in P:
+                runs.append(Run(sid, plan, rec=True))
+            covered.add((ts, r, "long"))
+            if ts and r in small:
+                ctx.sample(dict(case=streams[sid].label, bytes=n, must_deliver="the last %d frames as sent" % len(must)))
+    need = [(ts, r) for ts in (False, True) for r in (range(184) if not quick else small + large)]
+    missing = [x for x in need if x not in covered or (x[0], x[1], "inside") not in covered]
+    if not any(c == (True, r, "long") for r in small for c in covered):
+        missing.append("long TS tail behind a small residue")
+    if missing:
+        raise tlc.ToolFailure("residue family does not cover %s" % missing[:10])
+    ctx.cov["residues"] = dict(residues=len(residues), routes=2)
+
+
+PRED = {"f1": lambda rnd: [ttx(rnd, 7), ttx(rnd, 12)], "f2": lambda rnd: [ttx(rnd, 7), ttx(rnd, 330)],
+        "u1": lambda rnd: [ttx(rnd, 7), ttx(rnd, 0)], "u2": lambda rnd: [ttx(rnd, 7), ttx(rnd, 321), ttx(rnd, 0, True)]}
+PRED_FIELD = {"f1": 1, "f2": 2, "u1": 1, "u2": 2}
+# frames whose FIRST data unit has an undefined line number (line_offset 0: only the field parity is known), first / second field
+UBODY = {"E0": [[(0, 0), (9, 0), (15, 0), (321, 0)], [(0, 0), (0, 0), (10, 0), (0, 0), (320, 0), (0, 1)], [(0, 0), (8, 0)]],
+         "C0": [[(0, 1), (320, 0), (330, 0)], [(0, 1), (0, 1), (325, 0), (0, 1)], [(0, 1), (321, 0)]]}
+
+
+def family_undefined_first(ctx, drv, quick, rnd, add_stream, streams, runs):
+    """frames that begin with a data unit of undefined line number of the first (lofp 0xE0) or second field (0xC0), as the
+    first, second and later frame of a stream, behind predecessors that end in the first / second field with a known /
+    undefined line, followed by known and undefined lines.  Where the frame begins (DvbDemux LineAddr, after line_address()):
+    field parity goes back = new frame; goes up at the start of a packet = new frame (clause FieldUpStartsFrame); same field =
+    not recognisable (nothing asserted for that frame and the next)"""
+    covered = set()
+    for ts in (False, True):
+        cfg = dict(ts=ts, pid=PID2 if ts else 0)
+        cases = [(kind, pos, pred) for kind in ("E0", "C0") for pos in (0, 1, 2, 4) for pred in (("-",) if pos == 0 else ("f1", "f2", "u1", "u2"))]
+        cases.append(("alt", 2, "f2"))
+        for kind, pos, pred in cases:
+            bodies = [None] if kind == "alt" else (rnd.sample(UBODY[kind], 1) if quick else UBODY[kind])
+            for body in bodies:
+                def make():
+                    frames = simple_frames(rnd, [2, 3, 2, 4, 2, 3, 1, 2])
+                    fr = [f for f, _ in frames]
+                    if kind == "alt":
+                        fr[1] = PRED["f2"](rnd)
+                        fr[2] = [ttx(rnd, 0), ttx(rnd, 0)]
+                        fr[3] = [ttx(rnd, 0, True)]
+                        fr[4] = [ttx(rnd, 0), ttx(rnd, 9)]
+                    else:
+                        if pos:
+                            fr[pos - 1] = PRED[pred](rnd)
+                        fr[pos] = [ttx(rnd, ln, bool(f2)) for ln, f2 in body]
+                    frames = [(f, pts) for f, (_, pts) in zip(fr, frames)]
+                    pes = [dvb.enc_pes([dvb.unit_of(l) for l in f], pts, 0x99) for f, pts in frames]
+                    if not ts:
+                        return frames, pes, flat(pes)
+                    b = flat(dvb.ts_packetize(pes, PID2, rnd.randrange(16))[0])
+                    return (frames, pes, b) if dvb.sync_clean(b) else None
+                frames, pes, b = sync_clean_try(make)
+                sent = [dvb.sent_frame(f, pts) for f, pts in frames]
+                first = 1 if (ts and len(pes[0]) == 184) else 0
+                f = 1 if kind == "E0" else 2
+                how = "first" if pos == 0 else "back" if kind == "alt" or f < PRED_FIELD[pred] else "up" if f > PRED_FIELD[pred] else "same"
+                must = sent[first:-1] if how != "same" else sent[pos + 2:-1]
+                what = ("frames [known .. second field] [undefined first field x 2] [undefined second field] [undefined first field, line 9]" if kind == "alt" else
+                        "frame %d begins with an undefined line of the %s field (lofp 0x%s; units %s)%s" % (
+                            pos, "first" if f == 1 else "second", kind, [(l if l else ("u2" if f2 else "u1")) for l, f2 in body],
+                            "" if pos == 0 else ", its predecessor ends with %s (%s)" % (
+                                {"f1": "line 12", "f2": "line 330", "u1": "an undefined line of the first field", "u2": "an undefined line of the second field"}[pred],
+                                {"back": "field goes back: new frame", "up": "field goes up at the start of a packet: new frame", "same": "same field: no recognisable boundary"}[how])))
+                sid = add_stream(b, cfg, must, "undefined-first: %s, %s stream" % (what, "TS" if ts else "PES"))
+                n = len(b)
+                P = [one_piece(n), ("cb", 64, dvb.rnd_partition(rnd, n, rnd.choice(["mixed", "small", "packet"])), 0),
+                     ("cor", rnd.choice([1, 2, 64]) if quick else 64, rnd.choice([[n], dvb.rnd_partition(rnd, n, "mixed")]), 0)]
+                if not quick:
+                    P += [("cb", 64, dvb.rnd_partition(rnd, n, "small"), 0), ("cor", 1, [n], 0), ("cor", 3, dvb.rnd_partition(rnd, n, "packet"), 0),
+                          ("cb", 64, [1] * n, 0)]
+                for plan in P:
+                    runs.append(Run(sid, plan, rec=True))
+                covered.add((ts, kind, min(pos, 2), how))
+                if kind == "C0" and pos == 1 and how == "up" and not ts:
+                    ctx.sample(dict(case=streams[sid].label, bytes=n, must_deliver=[[l["line"] for l in fr_["lines"]] for fr_ in must]))
+    missing = [(ts, kind, pos, how) for ts in (False, True) for kind in ("E0", "C0") for pos in (1, 2)
+               for how in (("back", "same") if kind == "E0" else ("up", "same")) if (ts, kind, pos, how) not in covered]
+    missing += [(ts, kind, 0, "first") for ts in (False, True) for kind in ("E0", "C0") if (ts, kind, 0, "first") not in covered]
+    if missing:
+        raise tlc.ToolFailure("undefined-first family does not cover %s" % missing)
+
 
 CFGS = [dict(ts=False, pid=0, did=0x10, min=184, max=1472, max_ttx=3, line0=0.0),
         dict(ts=False, pid=0, did=0x99, min=184, max=65504, max_ttx=9, line0=0.3),
@@ -609,6 +789,8 @@ def build_cases(ctx, drv, quick):
     family_continuity(ctx, drv, quick, rnd, add_stream, streams, runs)
     family_capacity(ctx, drv, quick, rnd, add_stream, streams, runs)
     family_fields(ctx, drv, quick, rnd, add_stream, streams, runs)
+    family_residues(ctx, drv, quick, rnd, add_stream, streams, runs)
+    family_undefined_first(ctx, drv, quick, rnd, add_stream, streams, runs)
     return streams, runs
 
 
@@ -616,6 +798,21 @@ def execute(ctx, drv, streams, runs):
     scripts = [dvb.demux_script(streams[r.sid].bytes, streams[r.sid].ts, streams[r.sid].pid, r.plan) for r in runs]
     res = dvb.run_scripts(drv, scripts, timeout=900, workers=8)
     skipped = 0
+    # a watchdog report is confirmed by running that life time again, alone in a fresh process (the machine is shared: the
+    # wall clock part of the watchdog may fire on a starved process); only a hang seen twice is a hang
+    def hung(o, lines=None):
+        return bool(o.get("timeout") or (o["crashed"] and o["rc"] == 95) or any(x.get("a") == "watchdog" for x in o["lines"]))
+    suspects = [i for i, o in enumerate(res) if hung(o) and (o["crashed"] or any(x.get("a") == "watchdog" for x in o["lines"]))]
+    confirmed = 0
+    for n_, i in enumerate(suspects):
+        if n_ >= 3 and confirmed:
+            break                                  # the others are reported as recorded
+        again = dvb.run_scripts(drv, [scripts[i]], timeout=120, workers=1)[0]
+        if hung(again):
+            confirmed += 1
+        else:
+            ctx.notes.append("watchdog report not confirmed by the re-run (load): %s" % streams[runs[i].sid].label[:120])
+        res[i] = again
     for r, o in zip(runs, res):
         r.res = o
         r.lines = [x for x in o["lines"] if "a" in x]
@@ -625,7 +822,7 @@ def execute(ctx, drv, streams, runs):
             bad = core.report_sanitizers(ctx, o["stderr"], replay=rp, in_scope=True) > 0
         if o.get("timeout") or (o["crashed"] and o["rc"] == 95) or any(x.get("a") == "watchdog" for x in r.lines):
             ctx.violate("watchdog", "hang:vbi_dvb_demux:%s" % ("ts" if streams[r.sid].ts else "pes"),
-                        "a call did not return within 20 s: %s, plan %s" % (streams[r.sid].label, str(r.plan)[:200]), rp)
+                        "a call did not return (watchdog: 10 s CPU / 20 s wall; confirmed by a second run): %s, plan %s" % (streams[r.sid].label, str(r.plan)[:200]), rp)
             bad = True
         elif o["crashed"] and not bad:
             ctx.violate("crash", "crash:vbi_dvb_demux:rc=%s" % o["rc"], o["stderr"][-1500:], rp)
@@ -783,7 +980,8 @@ def run(ctx):
     import concurrent.futures as cf
     t = "q" if quick else "t"
     # partitions of damaged streams; frame capacity (MaxLines = 3); continuity counter over its whole range
-    mcs = [("MC_DvbDemux_" + t, 600 if quick else 3000), ("MC_DvbDemux_cap_" + t, 600 if quick else 3000), ("MC_DvbDemux_cont", 600)]
+    mcs = [("MC_DvbDemux_" + t, 600 if quick else 3000), ("MC_DvbDemux_cap_" + t, 600 if quick else 3000), ("MC_DvbDemux_cont", 600),
+           ("MC_DvbDemux_und_" + t, 600 if quick else 3000)]
 
     def model_checking():
         return [(cfg, tlc.run("MC_DvbDemux", cfg, timeout=to, workers=4 if quick else 8, heap="6g")) for cfg, to in mcs]
